@@ -128,6 +128,7 @@ def run(res, tier, seed):
     for c in cases[3000:3002] + cases[-3:]:
         res.sample({'query': qgen.render_query(c['q'], 'py'), 'A': c['A'], 'B': c['B']})
     engine_corr.run_cases(res, 'C01', cases, 'py', rnd=random.Random(seed + 5))
+    engine_corr.js_leg(res, 'C01', cases, rnd=random.Random(seed + 105))
 
 
 def replay(res, path):
